@@ -284,6 +284,9 @@ func (p *Properties) UnpackWillProperties(bufr *bytes.Buffer) error {
 	if length == 0 {
 		return nil
 	}
+	if length > bufr.Len() { // the Property Length runs past the end of the packet
+		return codes.ErrMalformed
+	}
 	newBufr := bytes.NewBuffer(bufr.Next(length))
 	var propType byte
 	for {
@@ -346,6 +349,9 @@ func (p *Properties) Unpack(bufr *bytes.Buffer, packetType byte) error {
 	}
 	if length == 0 {
 		return nil
+	}
+	if length > bufr.Len() { // the Property Length runs past the end of the packet
+		return codes.ErrMalformed
 	}
 	newBufr := bytes.NewBuffer(bufr.Next(length))
 	var propType byte
